@@ -74,610 +74,617 @@ def run(ck):
                  "derives it from _active_timer, which the expiry callback clears before the timed "
                  "event is delivered (a rejected timed event must not leave a past expiry in the "
                  "saved state, which a restart would discard as expired)", 'M0', 2)
-    _r06_9(ck, R9)
+    with ck.section('R06.1'):
+        _r06_9(ck, R9)
 
-    # ------------------------------------------------------------------ R06.1
-    ev = ap.methods.get('event')
-    ck.need(R1, ev is not None, "AddonPersistence.event not found")
-    g = ck.cfg(ev.fid, 'M1')
-    sup = nodes_where(g, lambda n: any(is_super_call(c, 'event') for c in node_calls(n)))
-    ck.ob(R1, f"{ev.fid} :: one super().event", len(sup) == 1,
-          f"{len(sup)} call(s) of super().event", ev, ev.node)
-    ck.need(R1, len(sup) == 1, "AddonPersistence.event: super().event call not recognised")
-    s = sup[0]
-    sc = [c for c in node_calls(s) if is_super_call(c, 'event')][0]
-    pos = [a.arg for a in ev.node.args.posonlyargs + ev.node.args.args][1:]
-    okargs = [norm(a) for a in sc.args] == pos[:1] and len(sc.keywords) == 1 and sc.keywords[0].arg is None \
-        and norm(sc.keywords[0].value) == ev.node.args.kwarg.arg
-    ck.ob(R1, f"{ev.fid} :: arguments forwarded", okargs,
-          "super().event(etype, **data)" if okargs else
-          f"the event is not forwarded unchanged: {norm(sc)}", ev, s.ast)
-    saves = nodes_calling(g, 'save_persistent_state')
-    normal_succ = [g.nodes[v] for v, lab in g.succ[s.id] if lab != 'exc']
-    exc_succ = [g.nodes[v] for v, lab in g.succ[s.id] if lab == 'exc']
-    ck.need(R1, normal_succ and exc_succ, "AddonPersistence.event: continuations not recognised")
-    oksave = len(saves) >= 1 and all(g.has_guard(x, 'self.persistent', True) and
-                                     g.has_guard(x, 'self.sync_state', True) for x in saves)
-    skip = None
-    for ns in normal_succ:
-        pth = g.path_avoiding(ns, [g.exit], avoid=saves)
-        if pth is not None and not any(
-                n.kind == 'branch' and any(
-                    canon_fact(e_, p_) in (('self.persistent', False), ('self.sync_state', False),
-                                           ('self.persistent and self.sync_state', False))
-                    for e_, p_ in decompose(n.test.ast, n.polarity))
-                for n in pth):
-            skip = pth
-    ck.ob(R1, f"{ev.fid} :: save on the normal continuation", oksave and skip is None,
-          "after a handled event the state is saved iff persistent and sync_state" if oksave and
-          skip is None else "a handled event can return without saving although persistent and "
-          "sync_state are set (or the save is not guarded by both)", ev,
-          saves[0].ast if saves else ev.node, witness=path_witness(g, skip))
-    early = [x for x in saves if not g.dominates(s, x)]
-    ck.ob(R1, f"{ev.fid} :: no save before the handler ran", not early,
-          "every save follows the handler call" if not early else
-          "the state is saved before the event was handled (the storage would lag one event "
-          "behind)", ev, early[0].ast if early else ev.node)
-    bad = None
-    for xs in exc_succ:
-        for sv in saves:
-            if sv.id in g.reachable_from(xs):
-                bad = g.path_avoiding(xs, [sv])
-    ck.ob(R1, f"{ev.fid} :: no save after a failed handler", bad is None,
-          "the exceptional continuation never reaches save_persistent_state" if bad is None else
-          "the state is saved although the handler failed (possibly corrupted state)", ev,
-          ev.node, witness=path_witness(g, bad))
-    hs = handlers_in(ev)
-    rer = bool(hs) and all(handler_reraises(ev, h) for h in hs)
-    bare = all(isinstance(x, ast.Raise) and x.exc is None for h in hs for x in walk_shallow(h)
-               if isinstance(x, ast.Raise))
-    ck.ob(R1, f"{ev.fid} :: failure re-raised", rer and bare,
-          "the handler's exception is re-raised unchanged" if rer and bare else
-          "the handler's exception is swallowed or replaced", ev, hs[0] if hs else ev.node)
-    dis = [w for w in nodes_writing_attr(g, 'persistent') if is_const(written_value(w, 'persistent'), False)]
-    okdis = bool(dis) and all(any(x.id in g.reachable_from(e) for e in exc_succ) for x in dis) and \
-        all(g.has_guard(x, 'self.persistent', True) and g.has_guard(x, 'self.circuit.is_ready()', False)
-            for x in dis) and all(x.id not in g.reachable_from(ns) or True for x in dis for ns in normal_succ)
-    ck.ob(R1, f"{ev.fid} :: persistence disabled after a fatal handler error", okdis,
-          "self.persistent = False when the circuit stopped being ready (no later save of a "
-          "tainted state, incl. the final one)" if okdis else
-          "after a failed handler the block may still be saved at stop", ev,
-          dis[0].ast if dis else ev.node)
-    rets = return_nodes(g)
-    okret = bool(rets) and all(expr_is(ck, ev.fid, 'M1', r, r.ast.value, norm(sc)) or
-                               (isinstance(r.ast.value, ast.Name) and
-                                all(d is s for d in ck.rdefs(ev.fid, 'M1').defs_at(r, r.ast.value.id)))
-                               for r in rets)
-    ck.ob(R1, f"{ev.fid} :: returns the handler's value", okret,
-          "returns what super().event returned" if okret else
-          "event() does not return the handler's value", ev, rets[0].ast if rets else ev.node)
-    n_cls = 0
-    for ci in prog.subclasses(ap, strict=True):
-        if ci.module.name == 'demo' or '/' in ci.module.name:
-            continue
-        if not any(cname(c) == 'SBlock' for c in ci.mro):
-            continue
-        n_cls += 1
-        r = prog.resolve_method(ci, 'event')
-        nxt = prog.resolve_method(ci, 'event', start_after=ap)
-        ok = r is ev and nxt is not None and nxt.fid == 'block:SBlock.event'
-        ck.ob(R1, f"{ci.qual}.event", ok,
-              "resolves to AddonPersistence.event, then SBlock.event" if ok else
-              f"event() of {ci.name} resolves to {r.fid if r else None} -> "
-              f"{nxt.fid if nxt else None}: the save-after-event wrapper is bypassed", r, ci.node)
-    ck.need(R1, n_cls >= 5, "fewer persistent classes than confirmed by hand")
+        # ------------------------------------------------------------------ R06.1
+        ev = ap.methods.get('event')
+        ck.need(R1, ev is not None, "AddonPersistence.event not found")
+        g = ck.cfg(ev.fid, 'M1')
+        sup = nodes_where(g, lambda n: any(is_super_call(c, 'event') for c in node_calls(n)))
+        ck.ob(R1, f"{ev.fid} :: one super().event", len(sup) == 1,
+              f"{len(sup)} call(s) of super().event", ev, ev.node)
+        ck.need(R1, len(sup) == 1, "AddonPersistence.event: super().event call not recognised")
+        s = sup[0]
+        sc = [c for c in node_calls(s) if is_super_call(c, 'event')][0]
+        pos = [a.arg for a in ev.node.args.posonlyargs + ev.node.args.args][1:]
+        okargs = [norm(a) for a in sc.args] == pos[:1] and len(sc.keywords) == 1 and sc.keywords[0].arg is None \
+            and norm(sc.keywords[0].value) == ev.node.args.kwarg.arg
+        ck.ob(R1, f"{ev.fid} :: arguments forwarded", okargs,
+              "super().event(etype, **data)" if okargs else
+              f"the event is not forwarded unchanged: {norm(sc)}", ev, s.ast)
+        saves = nodes_calling(g, 'save_persistent_state')
+        normal_succ = [g.nodes[v] for v, lab in g.succ[s.id] if lab != 'exc']
+        exc_succ = [g.nodes[v] for v, lab in g.succ[s.id] if lab == 'exc']
+        ck.need(R1, normal_succ and exc_succ, "AddonPersistence.event: continuations not recognised")
+        oksave = len(saves) >= 1 and all(g.has_guard(x, 'self.persistent', True) and
+                                         g.has_guard(x, 'self.sync_state', True) for x in saves)
+        skip = None
+        for ns in normal_succ:
+            pth = g.path_avoiding(ns, [g.exit], avoid=saves)
+            if pth is not None and not any(
+                    n.kind == 'branch' and any(
+                        canon_fact(e_, p_) in (('self.persistent', False), ('self.sync_state', False),
+                                               ('self.persistent and self.sync_state', False))
+                        for e_, p_ in decompose(n.test.ast, n.polarity))
+                    for n in pth):
+                skip = pth
+        ck.ob(R1, f"{ev.fid} :: save on the normal continuation", oksave and skip is None,
+              "after a handled event the state is saved iff persistent and sync_state" if oksave and
+              skip is None else "a handled event can return without saving although persistent and "
+              "sync_state are set (or the save is not guarded by both)", ev,
+              saves[0].ast if saves else ev.node, witness=path_witness(g, skip))
+        early = [x for x in saves if not g.dominates(s, x)]
+        ck.ob(R1, f"{ev.fid} :: no save before the handler ran", not early,
+              "every save follows the handler call" if not early else
+              "the state is saved before the event was handled (the storage would lag one event "
+              "behind)", ev, early[0].ast if early else ev.node)
+        bad = None
+        for xs in exc_succ:
+            for sv in saves:
+                if sv.id in g.reachable_from(xs):
+                    bad = g.path_avoiding(xs, [sv])
+        ck.ob(R1, f"{ev.fid} :: no save after a failed handler", bad is None,
+              "the exceptional continuation never reaches save_persistent_state" if bad is None else
+              "the state is saved although the handler failed (possibly corrupted state)", ev,
+              ev.node, witness=path_witness(g, bad))
+        hs = handlers_in(ev)
+        rer = bool(hs) and all(handler_reraises(ev, h) for h in hs)
+        bare = all(isinstance(x, ast.Raise) and x.exc is None for h in hs for x in walk_shallow(h)
+                   if isinstance(x, ast.Raise))
+        ck.ob(R1, f"{ev.fid} :: failure re-raised", rer and bare,
+              "the handler's exception is re-raised unchanged" if rer and bare else
+              "the handler's exception is swallowed or replaced", ev, hs[0] if hs else ev.node)
+        dis = [w for w in nodes_writing_attr(g, 'persistent') if is_const(written_value(w, 'persistent'), False)]
+        okdis = bool(dis) and all(any(x.id in g.reachable_from(e) for e in exc_succ) for x in dis) and \
+            all(g.has_guard(x, 'self.persistent', True) and g.has_guard(x, 'self.circuit.is_ready()', False)
+                for x in dis) and all(x.id not in g.reachable_from(ns) or True for x in dis for ns in normal_succ)
+        ck.ob(R1, f"{ev.fid} :: persistence disabled after a fatal handler error", okdis,
+              "self.persistent = False when the circuit stopped being ready (no later save of a "
+              "tainted state, incl. the final one)" if okdis else
+              "after a failed handler the block may still be saved at stop", ev,
+              dis[0].ast if dis else ev.node)
+        rets = return_nodes(g)
+        okret = bool(rets) and all(expr_is(ck, ev.fid, 'M1', r, r.ast.value, norm(sc)) or
+                                   (isinstance(r.ast.value, ast.Name) and
+                                    all(d is s for d in ck.rdefs(ev.fid, 'M1').defs_at(r, r.ast.value.id)))
+                                   for r in rets)
+        ck.ob(R1, f"{ev.fid} :: returns the handler's value", okret,
+              "returns what super().event returned" if okret else
+              "event() does not return the handler's value", ev, rets[0].ast if rets else ev.node)
+        n_cls = 0
+        for ci in prog.subclasses(ap, strict=True):
+            if ci.module.name == 'demo' or '/' in ci.module.name:
+                continue
+            if not any(cname(c) == 'SBlock' for c in ci.mro):
+                continue
+            n_cls += 1
+            r = prog.resolve_method(ci, 'event')
+            nxt = prog.resolve_method(ci, 'event', start_after=ap)
+            ok = r is ev and nxt is not None and nxt.fid == 'block:SBlock.event'
+            ck.ob(R1, f"{ci.qual}.event", ok,
+                  "resolves to AddonPersistence.event, then SBlock.event" if ok else
+                  f"event() of {ci.name} resolves to {r.fid if r else None} -> "
+                  f"{nxt.fid if nxt else None}: the save-after-event wrapper is bypassed", r, ci.node)
+        ck.need(R1, n_cls >= 5, "fewer persistent classes than confirmed by hand")
 
-    # ------------------------------------------------------------------ R06.2
-    table = {'addons:AddonPersistence.save_persistent_state': 'store / remove on error',
-             f'{CIRC}._check_persistent_data': 'purge of vanished blocks',
-             f'{CIRC}.run_forever': 'stop time stamp'}
-    n_w = 0
-    for fi in prog.pkg_funcs(include_demo=True):
-        for x in own_nodes(fi.node):
-            if isinstance(x, (ast.Assign, ast.AugAssign, ast.Delete)):
-                for tgt, kind, stmt in subscript_writes(x):
-                    if _is_storage(tgt.value):
-                        n_w += 1
-                        ok = fi.fid in table
-                        ck.ob(R2, f"{fi.fid} :: {norm1(stmt)}", ok,
-                              f"permitted writer: {table.get(fi.fid)}" if ok else
-                              "the persistent storage is written outside the three permitted "
-                              "places", fi, stmt)
-            if isinstance(x, ast.Call) and isinstance(x.func, ast.Attribute) and \
-                    _is_storage(x.func.value) and x.func.attr in ('pop', 'update', 'clear', 'setdefault',
-                                                                  'popitem', '__setitem__', '__delitem__'):
-                n_w += 1
-                ok = fi.fid in table
-                ck.ob(R2, f"{fi.fid} :: {norm1(x)}", ok,
-                      f"permitted writer: {table.get(fi.fid)}" if ok else
-                      "the persistent storage is modified outside the three permitted places", fi, x)
-    ck.need(R2, n_w >= 3, "fewer storage write sites than confirmed by hand")
-    sv = ap.methods.get('save_persistent_state')
-    ck.need(R2, sv is not None, "save_persistent_state not found")
-    gs = ck.cfg(sv.fid, 'M1')
-    stores = nodes_where(gs, lambda n: n.kind == 'stmt' and any(
-        _is_storage(t.value) and k == 'assign' for t, k, s_ in subscript_writes(n.ast)))
-    ok = len(stores) == 1
-    if ok:
-        a = stores[0].ast
-        ok = isinstance(a, ast.Assign) and norm(a.targets[0].slice) == 'self.key' and \
-            norm(a.value) == 'self.get_state()' and gs.has_guard(stores[0], 'self.persistent', True)
-    ck.ob(R2, f"{sv.fid} :: what is stored", ok,
-          "storage[self.key] = self.get_state(), only for a persistent block" if ok else
-          "save_persistent_state does not store get_state() under self.key for persistent blocks "
-          "only", sv, stores[0].ast if stores else sv.node)
-    hs = handlers_in(sv)
-    pops = [x for h in hs for x in walk_shallow(h) if isinstance(x, ast.Call) and call_name(x) == 'pop'
-            and _is_storage(x.func.value)]
-    ok = bool(hs) and bool(pops) and not any(handler_reraises(sv, h) for h in hs) and \
-        all(norm(p.args[0]) == 'self.key' and len(p.args) == 2 for p in pops)
-    ck.ob(R2, f"{sv.fid} :: failing save", ok,
-          "a failing save is logged and the stale entry removed (pop with default)" if ok else
-          "a failing save raises or leaves a stale entry", sv, hs[0] if hs else sv.node)
-    own(ck, R2, 'persistent_dict', {f'{CIRC}.__init__': 'None', f'{CIRC}.set_persistent_data': 'gated setter'})
+    with ck.section('R06.2'):
+        # ------------------------------------------------------------------ R06.2
+        table = {'addons:AddonPersistence.save_persistent_state': 'store / remove on error',
+                 f'{CIRC}._check_persistent_data': 'purge of vanished blocks',
+                 f'{CIRC}.run_forever': 'stop time stamp'}
+        n_w = 0
+        for fi in prog.pkg_funcs(include_demo=True):
+            for x in own_nodes(fi.node):
+                if isinstance(x, (ast.Assign, ast.AugAssign, ast.Delete)):
+                    for tgt, kind, stmt in subscript_writes(x):
+                        if _is_storage(tgt.value):
+                            n_w += 1
+                            ok = fi.fid in table
+                            ck.ob(R2, f"{fi.fid} :: {norm1(stmt)}", ok,
+                                  f"permitted writer: {table.get(fi.fid)}" if ok else
+                                  "the persistent storage is written outside the three permitted "
+                                  "places", fi, stmt)
+                if isinstance(x, ast.Call) and isinstance(x.func, ast.Attribute) and \
+                        _is_storage(x.func.value) and x.func.attr in ('pop', 'update', 'clear', 'setdefault',
+                                                                      'popitem', '__setitem__', '__delitem__'):
+                    n_w += 1
+                    ok = fi.fid in table
+                    ck.ob(R2, f"{fi.fid} :: {norm1(x)}", ok,
+                          f"permitted writer: {table.get(fi.fid)}" if ok else
+                          "the persistent storage is modified outside the three permitted places", fi, x)
+        ck.need(R2, n_w >= 3, "fewer storage write sites than confirmed by hand")
+        sv = ap.methods.get('save_persistent_state')
+        ck.need(R2, sv is not None, "save_persistent_state not found")
+        gs = ck.cfg(sv.fid, 'M1')
+        stores = nodes_where(gs, lambda n: n.kind == 'stmt' and any(
+            _is_storage(t.value) and k == 'assign' for t, k, s_ in subscript_writes(n.ast)))
+        ok = len(stores) == 1
+        if ok:
+            a = stores[0].ast
+            ok = isinstance(a, ast.Assign) and norm(a.targets[0].slice) == 'self.key' and \
+                norm(a.value) == 'self.get_state()' and gs.has_guard(stores[0], 'self.persistent', True)
+        ck.ob(R2, f"{sv.fid} :: what is stored", ok,
+              "storage[self.key] = self.get_state(), only for a persistent block" if ok else
+              "save_persistent_state does not store get_state() under self.key for persistent blocks "
+              "only", sv, stores[0].ast if stores else sv.node)
+        hs = handlers_in(sv)
+        pops = [x for h in hs for x in walk_shallow(h) if isinstance(x, ast.Call) and call_name(x) == 'pop'
+                and _is_storage(x.func.value)]
+        ok = bool(hs) and bool(pops) and not any(handler_reraises(sv, h) for h in hs) and \
+            all(norm(p.args[0]) == 'self.key' and len(p.args) == 2 for p in pops)
+        ck.ob(R2, f"{sv.fid} :: failing save", ok,
+              "a failing save is logged and the stale entry removed (pop with default)" if ok else
+              "a failing save raises or leaves a stale entry", sv, hs[0] if hs else sv.node)
+        own(ck, R2, 'persistent_dict', {f'{CIRC}.__init__': 'None', f'{CIRC}.set_persistent_data': 'gated setter'})
 
-    # ------------------------------------------------------------------ R06.3 / R06.4
-    s2 = circ.methods['_init_sblocks_sync_2']
-    g2 = ck.cfg(s2.fid, 'M1')
-    saves2 = nodes_calling(g2, 'save_persistent_state')
-    chk = nodes_where(g2, lambda n: isinstance(n.ast, ast.Raise), kinds=('stmt',))
-    ok = len(saves2) == 1 and bool(chk)
-    if ok:
-        chk_loop = [l for l in g2.nodes if l.kind == 'for' and g2.dominates(l, chk[0])][-1]
-        ok = g2.dominates(chk_loop, saves2[0]) and chk[0].id not in g2.reachable_from(saves2[0]) and \
-            g2.has_guard(saves2[0], 'self.persistent_dict is not None', True)
-        sl = [l for l in g2.nodes if l.kind == 'for' and g2.dominates(l, saves2[0])][-1]
-        ok = ok and norm(sl.ast.iter) == 'self.getblocks(addons.AddonPersistence)'
-    ck.ob(R3, f"{s2.fid} :: save after initialisation", ok,
-          "all persistent blocks are saved after every block proved to be initialised, if a "
-          "storage exists" if ok else
-          "the save after initialisation is misplaced (before the check / without storage test / "
-          "not for all persistent blocks)", s2, saves2[0].ast if saves2 else s2.node)
-    rf = circ.methods['run_forever']
-    gr = ck.cfg(rf.fid, 'M1')
-    fs = nodes_calling(gr, 'save_persistent_state')
-    ts = nodes_where(gr, lambda n: n.kind == 'stmt' and any(_is_storage(t.value) for t, k, s_ in
-                                                           subscript_writes(n.ast)))
-    stop = nodes_calling(gr, '_stop_sblocks')
-    ok = len(fs) == 1 and len(ts) == 1 and len(stop) == 1
-    flag = None
-    if ok:
-        for e, p in gr.guards(fs[0]):
-            if isinstance(e, ast.Name) and p:
-                flag = e.id
-        ok = flag is not None and gr.has_guard(ts[0], flag, True) and \
-            gr.has_guard(fs[0], 'self.persistent_dict is not None', True) and \
-            gr.has_guard(ts[0], 'self.persistent_dict is not None', True) and \
-            stop[0].id in gr.reachable_from(ts[0]) and fs[0].id not in gr.reachable_from(stop[0]) and \
-            ts[0].id not in gr.reachable_from(stop[0])
-        sl = [l for l in gr.nodes if l.kind == 'for' and gr.dominates(l, fs[0])][-1]
-        ok = ok and 'getblocks(addons.AddonPersistence)' in norm(sl.ast.iter) and \
-            'started_blocks' in norm(sl.ast.iter)
-    ck.ob(R3, f"{rf.fid} :: final save precedes the stop", ok,
-          f"under `{flag} and storage exists`: save all started persistent blocks, write the stop "
-          f"time stamp, then stop the blocks" if ok else
-          "the final save / stop time stamp is not guarded by the start flag and the storage "
-          "test, or does not precede _stop_sblocks (stop() invalidates e.g. the timer state)",
-          rf, fs[0].ast if fs else rf.node)
-    okts = bool(ts) and isinstance(ts[0].ast, ast.Assign) and norm(ts[0].ast.value) == 'time.time()'
-    ck.ob(R3, f"{rf.fid} :: stop time stamp", okts,
-          "the stop time stamp is time.time() (unix time)" if okts else
-          "the stop time stamp is not time.time()", rf, ts[0].ast if ts else rf.node)
-    if flag:
-        fw = nodes_where(gr, lambda n: isinstance(n.ast, ast.Assign) and norm(n.ast.targets[0]) == flag)
-        trues = [w for w in fw if is_const(w.ast.value, True)]
-        sync2 = nodes_calling(gr, '_init_sblocks_sync_2')
-        starts = nodes_calling(gr, 'start')
-        ok = len(trues) == 1 and len(sync2) == 1 and gr.dominates(sync2[0], trues[0]) and \
-            all(gr.dominates(gr.nodes[[l.id for l in gr.nodes if l.kind == 'for' and
-                                       gr.dominates(l, st)][-1]], trues[0]) for st in starts)
-        ck.ob(R4, f"{rf.fid} :: {flag} = True", ok,
-              "the flag is set once, after all start() calls and after the initialisation "
-              "completed" if ok else
-              f"`{flag} = True` is set before the initialisation has completed: after a failed "
-              f"initialisation block entries and a stop time stamp are still written", rf,
-              trues[0].ast if trues else rf.node)
-        falses = [w for w in fw if is_const(w.ast.value, False)]
-        ok = len(falses) == 1 and all(gr.dominates(falses[0], t) for t in trues) and len(fw) == 2
-        ck.ob(R4, f"{rf.fid} :: {flag} initial", ok, "initially False, written twice in total"
-              if ok else f"`{flag}` has unexpected writers", rf, falses[0].ast if falses else rf.node)
+    with ck.section('R06.3'):
+        # ------------------------------------------------------------------ R06.3 / R06.4
+        s2 = circ.methods['_init_sblocks_sync_2']
+        g2 = ck.cfg(s2.fid, 'M1')
+        saves2 = nodes_calling(g2, 'save_persistent_state')
+        chk = nodes_where(g2, lambda n: isinstance(n.ast, ast.Raise), kinds=('stmt',))
+        ok = len(saves2) == 1 and bool(chk)
+        if ok:
+            chk_loop = [l for l in g2.nodes if l.kind == 'for' and g2.dominates(l, chk[0])][-1]
+            ok = g2.dominates(chk_loop, saves2[0]) and chk[0].id not in g2.reachable_from(saves2[0]) and \
+                g2.has_guard(saves2[0], 'self.persistent_dict is not None', True)
+            sl = [l for l in g2.nodes if l.kind == 'for' and g2.dominates(l, saves2[0])][-1]
+            ok = ok and norm(sl.ast.iter) == 'self.getblocks(addons.AddonPersistence)'
+        ck.ob(R3, f"{s2.fid} :: save after initialisation", ok,
+              "all persistent blocks are saved after every block proved to be initialised, if a "
+              "storage exists" if ok else
+              "the save after initialisation is misplaced (before the check / without storage test / "
+              "not for all persistent blocks)", s2, saves2[0].ast if saves2 else s2.node)
+        rf = circ.methods['run_forever']
+        gr = ck.cfg(rf.fid, 'M1')
+        fs = nodes_calling(gr, 'save_persistent_state')
+        ts = nodes_where(gr, lambda n: n.kind == 'stmt' and any(_is_storage(t.value) for t, k, s_ in
+                                                               subscript_writes(n.ast)))
+        stop = nodes_calling(gr, '_stop_sblocks')
+        ok = len(fs) == 1 and len(ts) == 1 and len(stop) == 1
+        flag = None
+        if ok:
+            for e, p in gr.guards(fs[0]):
+                if isinstance(e, ast.Name) and p:
+                    flag = e.id
+            ok = flag is not None and gr.has_guard(ts[0], flag, True) and \
+                gr.has_guard(fs[0], 'self.persistent_dict is not None', True) and \
+                gr.has_guard(ts[0], 'self.persistent_dict is not None', True) and \
+                stop[0].id in gr.reachable_from(ts[0]) and fs[0].id not in gr.reachable_from(stop[0]) and \
+                ts[0].id not in gr.reachable_from(stop[0])
+            sl = [l for l in gr.nodes if l.kind == 'for' and gr.dominates(l, fs[0])][-1]
+            ok = ok and 'getblocks(addons.AddonPersistence)' in norm(sl.ast.iter) and \
+                'started_blocks' in norm(sl.ast.iter)
+        ck.ob(R3, f"{rf.fid} :: final save precedes the stop", ok,
+              f"under `{flag} and storage exists`: save all started persistent blocks, write the stop "
+              f"time stamp, then stop the blocks" if ok else
+              "the final save / stop time stamp is not guarded by the start flag and the storage "
+              "test, or does not precede _stop_sblocks (stop() invalidates e.g. the timer state)",
+              rf, fs[0].ast if fs else rf.node)
+        okts = bool(ts) and isinstance(ts[0].ast, ast.Assign) and norm(ts[0].ast.value) == 'time.time()'
+        ck.ob(R3, f"{rf.fid} :: stop time stamp", okts,
+              "the stop time stamp is time.time() (unix time)" if okts else
+              "the stop time stamp is not time.time()", rf, ts[0].ast if ts else rf.node)
+        if flag:
+            fw = nodes_where(gr, lambda n: isinstance(n.ast, ast.Assign) and norm(n.ast.targets[0]) == flag)
+            trues = [w for w in fw if is_const(w.ast.value, True)]
+            sync2 = nodes_calling(gr, '_init_sblocks_sync_2')
+            starts = nodes_calling(gr, 'start')
+            ok = len(trues) == 1 and len(sync2) == 1 and gr.dominates(sync2[0], trues[0]) and \
+                all(gr.dominates(gr.nodes[[l.id for l in gr.nodes if l.kind == 'for' and
+                                           gr.dominates(l, st)][-1]], trues[0]) for st in starts)
+            ck.ob(R4, f"{rf.fid} :: {flag} = True", ok,
+                  "the flag is set once, after all start() calls and after the initialisation "
+                  "completed" if ok else
+                  f"`{flag} = True` is set before the initialisation has completed: after a failed "
+                  f"initialisation block entries and a stop time stamp are still written", rf,
+                  trues[0].ast if trues else rf.node)
+            falses = [w for w in fw if is_const(w.ast.value, False)]
+            ok = len(falses) == 1 and all(gr.dominates(falses[0], t) for t in trues) and len(fw) == 2
+            ck.ob(R4, f"{rf.fid} :: {flag} initial", ok, "initially False, written twice in total"
+                  if ok else f"`{flag}` has unexpected writers", rf, falses[0].ast if falses else rf.node)
 
-    # ------------------------------------------------------------------ R06.5
-    fsm = prog.cls('fsm:FSM')
-    gsf, rsf = fsm.methods['get_state'], fsm.methods['_restore_state']
-    gg = ck.cfg(gsf.fid, 'M0')
-    rets = [r for r in return_nodes(gg) if isinstance(r.ast.value, ast.Tuple)]
-    arity = {len(r.ast.value.elts) for r in rets}
-    gr2 = ck.cfg(rsf.fid, 'MK')
-    unpack = nodes_where(gr2, lambda n: isinstance(n.ast, ast.Assign) and
-                         isinstance(n.ast.targets[0], ast.Tuple) and
-                         norm(n.ast.value) == rsf.node.args.posonlyargs[-1].arg
-                         if rsf.node.args.posonlyargs else False)
-    ok = len(arity) == 1 and len(unpack) == 1 and len(unpack[0].ast.targets[0].elts) == arity.pop()
-    roles_ok = False
-    if ok:
-        names = [norm(e) for e in unpack[0].ast.targets[0].elts]
-        w_elts = [norm(e) for e in rets[0].ast.value.elts]
-        sw = nodes_writing_attr(gr2, '_state')
-        dw = nodes_writing_attr(gr2, 'sdata')
-        roles_ok = w_elts[0] == 'self._state' and w_elts[2] == 'self.sdata' and \
-            all(norm(written_value(w, '_state')) == names[0] for w in sw) and \
-            all(norm(written_value(w, 'sdata')) == names[2] for w in dw) and bool(sw) and bool(dw) and \
-            any(isinstance(x, ast.BinOp) and isinstance(x.op, ast.Sub) and norm(x.left) == names[1]
-                and norm(x.right) == 'time.time()' for x in own_nodes(rsf.node))
-    ck.ob(R5, "fsm:FSM get_state <-> _restore_state", ok and roles_ok,
-          "(state, expiry, sdata): same arity and the same role per position on both sides"
-          if ok and roles_ok else
-          "the tuple written by FSM.get_state and the one unpacked by _restore_state differ in "
-          "arity or in the role of a position", rsf, unpack[0].ast if unpack else rsf.node)
-    pad = nodes_where(gr2, lambda n: n.kind == 'test' and 'len(' in norm(n.ast) and '== 2' in norm(n.ast))
-    ck.ob(R5, f"{rsf.fid} :: 2-tuple compatibility", bool(pad),
-          "old two-item states are padded with empty sdata" if pad else
-          "the documented compatibility padding is missing", rsf, rsf.node)
-    td = prog.cls('blocklib.timedate:TimeDate')
-    ex = td.methods['_export3']
-    keys = None
-    for x in own_nodes(ex.node):
-        if isinstance(x, ast.Return) and isinstance(x.value, ast.Dict):
-            keys = [ast.literal_eval(k) for k in x.value.keys]
-        elif isinstance(x, ast.Return) and isinstance(x.value, ast.Name):
-            # a dict built step by step: the display it starts from plus constant-key stores
-            nm_ = x.value.id
-            ks_ = set()
-            for y in own_nodes(ex.node):
-                if isinstance(y, ast.Assign) and any(norm(t) == nm_ for t in y.targets) and isinstance(y.value, ast.Dict) \
-                        and all(isinstance(k, ast.Constant) for k in y.value.keys):
-                    ks_ |= {k.value for k in y.value.keys}
-                if isinstance(y, ast.Assign):
-                    for t in y.targets:
-                        if isinstance(t, ast.Subscript) and norm(t.value) == nm_ and isinstance(t.slice, ast.Constant):
-                            ks_.add(t.slice.value)
-            if ks_:
-                keys = sorted(ks_)
-    rc = td.methods['_event_reconfig']
-    kwonly = [a.arg for a in rc.node.args.kwonlyargs]
-    ifv = prog.resolve_method(td, 'init_from_value')
-    splat = any(isinstance(x, ast.Call) and call_name(x) == '_event_reconfig' and
-                any(k.arg is None for k in x.keywords) for x in own_nodes(ifv.node))
-    rs_td = prog.resolve_method(td, '_restore_state')
-    gst = prog.resolve_method(td, 'get_state')
-    ok = keys is not None and sorted(keys) == sorted(kwonly) and splat and rs_td is ifv and \
-        any(isinstance(x, ast.Call) and call_name(x) == '_export3' for x in own_nodes(gst.node))
-    ck.ob(R5, "TimeDate get_state <-> _restore_state", ok,
-          f"exported keys {keys} = keyword-only parameters of _event_reconfig {kwonly}, passed "
-          f"as **value" if ok else
-          f"exported keys {keys} do not agree with the reconfig keywords {kwonly} (or the state is "
-          f"not restored through _event_reconfig(**value))", rc, rc.node)
-    tsn = prog.cls('blocklib.timedate:TimeSpan')
-    gs_ts = prog.resolve_method(tsn, 'get_state')
-    ifv_ts = prog.resolve_method(tsn, 'init_from_value')
-    rs_ts = prog.resolve_method(tsn, '_restore_state')
-    ok = any(isinstance(x, ast.Return) and norm(x.value) == 'self._span.as_list()' for x in own_nodes(gs_ts.node)) \
-        and any(isinstance(x, ast.Call) and call_name(x) == '_event_reconfig' and
-                [k.arg for k in x.keywords] == ['span'] and norm(x.keywords[0].value) == ifv_ts.node.args.args[1].arg
-                for x in own_nodes(ifv_ts.node)) and rs_ts is ifv_ts and \
-        'span' in [a.arg for a in tsn.methods['_event_reconfig'].node.args.kwonlyargs]
-    ck.ob(R5, "TimeSpan get_state <-> _restore_state", ok,
-          "as_list() is fed back as span=value" if ok else
-          "TimeSpan's saved form is not what its restore path accepts", gs_ts, gs_ts.node)
-    for q in ('blocklib.sblocks1:Counter', 'blocklib.sblocks2:Input'):
-        ci = prog.cls(q)
-        gsx = prog.resolve_method(ci, 'get_state')
-        rsx = prog.resolve_method(ci, '_restore_state')
-        ifx = prog.resolve_method(ci, 'init_from_value')
-        def _target(fi_, depth=0):
-            """Follow `def f(self, x): return self.g(x)` to g: a delegating method is the alias
-            `f = g` written out."""
-            if fi_ is None or depth > 3:
+    with ck.section('R06.5'):
+        # ------------------------------------------------------------------ R06.5
+        fsm = prog.cls('fsm:FSM')
+        gsf, rsf = fsm.methods['get_state'], fsm.methods['_restore_state']
+        gg = ck.cfg(gsf.fid, 'M0')
+        rets = [r for r in return_nodes(gg) if isinstance(r.ast.value, ast.Tuple)]
+        arity = {len(r.ast.value.elts) for r in rets}
+        gr2 = ck.cfg(rsf.fid, 'MK')
+        unpack = nodes_where(gr2, lambda n: isinstance(n.ast, ast.Assign) and
+                             isinstance(n.ast.targets[0], ast.Tuple) and
+                             norm(n.ast.value) == rsf.node.args.posonlyargs[-1].arg
+                             if rsf.node.args.posonlyargs else False)
+        ok = len(arity) == 1 and len(unpack) == 1 and len(unpack[0].ast.targets[0].elts) == arity.pop()
+        roles_ok = False
+        if ok:
+            names = [norm(e) for e in unpack[0].ast.targets[0].elts]
+            w_elts = [norm(e) for e in rets[0].ast.value.elts]
+            sw = nodes_writing_attr(gr2, '_state')
+            dw = nodes_writing_attr(gr2, 'sdata')
+            roles_ok = w_elts[0] == 'self._state' and w_elts[2] == 'self.sdata' and \
+                all(norm(written_value(w, '_state')) == names[0] for w in sw) and \
+                all(norm(written_value(w, 'sdata')) == names[2] for w in dw) and bool(sw) and bool(dw) and \
+                any(isinstance(x, ast.BinOp) and isinstance(x.op, ast.Sub) and norm(x.left) == names[1]
+                    and norm(x.right) == 'time.time()' for x in own_nodes(rsf.node))
+        ck.ob(R5, "fsm:FSM get_state <-> _restore_state", ok and roles_ok,
+              "(state, expiry, sdata): same arity and the same role per position on both sides"
+              if ok and roles_ok else
+              "the tuple written by FSM.get_state and the one unpacked by _restore_state differ in "
+              "arity or in the role of a position", rsf, unpack[0].ast if unpack else rsf.node)
+        pad = nodes_where(gr2, lambda n: n.kind == 'test' and 'len(' in norm(n.ast) and '== 2' in norm(n.ast))
+        ck.ob(R5, f"{rsf.fid} :: 2-tuple compatibility", bool(pad),
+              "old two-item states are padded with empty sdata" if pad else
+              "the documented compatibility padding is missing", rsf, rsf.node)
+        td = prog.cls('blocklib.timedate:TimeDate')
+        ex = td.methods['_export3']
+        keys = None
+        for x in own_nodes(ex.node):
+            if isinstance(x, ast.Return) and isinstance(x.value, ast.Dict):
+                keys = [ast.literal_eval(k) for k in x.value.keys]
+            elif isinstance(x, ast.Return) and isinstance(x.value, ast.Name):
+                # a dict built step by step: the display it starts from plus constant-key stores
+                nm_ = x.value.id
+                ks_ = set()
+                for y in own_nodes(ex.node):
+                    if isinstance(y, ast.Assign) and any(norm(t) == nm_ for t in y.targets) and isinstance(y.value, ast.Dict) \
+                            and all(isinstance(k, ast.Constant) for k in y.value.keys):
+                        ks_ |= {k.value for k in y.value.keys}
+                    if isinstance(y, ast.Assign):
+                        for t in y.targets:
+                            if isinstance(t, ast.Subscript) and norm(t.value) == nm_ and isinstance(t.slice, ast.Constant):
+                                ks_.add(t.slice.value)
+                if ks_:
+                    keys = sorted(ks_)
+        rc = td.methods['_event_reconfig']
+        kwonly = [a.arg for a in rc.node.args.kwonlyargs]
+        ifv = prog.resolve_method(td, 'init_from_value')
+        splat = any(isinstance(x, ast.Call) and call_name(x) == '_event_reconfig' and
+                    any(k.arg is None for k in x.keywords) for x in own_nodes(ifv.node))
+        rs_td = prog.resolve_method(td, '_restore_state')
+        gst = prog.resolve_method(td, 'get_state')
+        ok = keys is not None and sorted(keys) == sorted(kwonly) and splat and rs_td is ifv and \
+            any(isinstance(x, ast.Call) and call_name(x) == '_export3' for x in own_nodes(gst.node))
+        ck.ob(R5, "TimeDate get_state <-> _restore_state", ok,
+              f"exported keys {keys} = keyword-only parameters of _event_reconfig {kwonly}, passed "
+              f"as **value" if ok else
+              f"exported keys {keys} do not agree with the reconfig keywords {kwonly} (or the state is "
+              f"not restored through _event_reconfig(**value))", rc, rc.node)
+        tsn = prog.cls('blocklib.timedate:TimeSpan')
+        gs_ts = prog.resolve_method(tsn, 'get_state')
+        ifv_ts = prog.resolve_method(tsn, 'init_from_value')
+        rs_ts = prog.resolve_method(tsn, '_restore_state')
+        ok = any(isinstance(x, ast.Return) and norm(x.value) == 'self._span.as_list()' for x in own_nodes(gs_ts.node)) \
+            and any(isinstance(x, ast.Call) and call_name(x) == '_event_reconfig' and
+                    [k.arg for k in x.keywords] == ['span'] and norm(x.keywords[0].value) == ifv_ts.node.args.args[1].arg
+                    for x in own_nodes(ifv_ts.node)) and rs_ts is ifv_ts and \
+            'span' in [a.arg for a in tsn.methods['_event_reconfig'].node.args.kwonlyargs]
+        ck.ob(R5, "TimeSpan get_state <-> _restore_state", ok,
+              "as_list() is fed back as span=value" if ok else
+              "TimeSpan's saved form is not what its restore path accepts", gs_ts, gs_ts.node)
+        for q in ('blocklib.sblocks1:Counter', 'blocklib.sblocks2:Input'):
+            ci = prog.cls(q)
+            gsx = prog.resolve_method(ci, 'get_state')
+            rsx = prog.resolve_method(ci, '_restore_state')
+            ifx = prog.resolve_method(ci, 'init_from_value')
+            def _target(fi_, depth=0):
+                """Follow `def f(self, x): return self.g(x)` to g: a delegating method is the alias
+                `f = g` written out."""
+                if fi_ is None or depth > 3:
+                    return fi_
+                body_ = [st for st in fi_.node.body if not (isinstance(st, ast.Expr) and isinstance(st.value, ast.Constant))]
+                if len(body_) == 1 and isinstance(body_[0], (ast.Return, ast.Expr)) and isinstance(body_[0].value, ast.Call):
+                    c_ = body_[0].value
+                    a_ = fi_.node.args
+                    params_ = [x.arg for x in a_.posonlyargs + a_.args][1:]
+                    if isinstance(c_.func, ast.Attribute) and norm(c_.func.value) == 'self' and not c_.keywords \
+                            and [norm(x) for x in c_.args] == params_ and not a_.vararg and not a_.kwarg \
+                            and not a_.kwonlyargs:
+                        return _target(prog.resolve_method(ci, c_.func.attr), depth + 1)
                 return fi_
-            body_ = [st for st in fi_.node.body if not (isinstance(st, ast.Expr) and isinstance(st.value, ast.Constant))]
-            if len(body_) == 1 and isinstance(body_[0], (ast.Return, ast.Expr)) and isinstance(body_[0].value, ast.Call):
-                c_ = body_[0].value
-                a_ = fi_.node.args
-                params_ = [x.arg for x in a_.posonlyargs + a_.args][1:]
-                if isinstance(c_.func, ast.Attribute) and norm(c_.func.value) == 'self' and not c_.keywords \
-                        and [norm(x) for x in c_.args] == params_ and not a_.vararg and not a_.kwarg \
-                        and not a_.kwonlyargs:
-                    return _target(prog.resolve_method(ci, c_.func.attr), depth + 1)
-            return fi_
-        ok = gsx is not None and gsx.fid == 'block:SBlock.get_state' and rsx is not None and \
-            _target(rsx) is _target(ifx)
-        ck.ob(R5, f"{q} get_state <-> _restore_state", ok,
-              "state = output; restored through the same function as init_from_value" if ok else
-              f"{ci.name}: get_state={gsx.fid if gsx else None}, _restore_state="
-              f"{rsx.fid if rsx else None}, init_from_value={ifx.fid if ifx else None}", rsx,
-              ci.node)
-    for ci in prog.subclasses(ap, strict=True):
-        if ci.module.name == 'demo' or '/' in ci.module.name or not any(cname(c) == 'SBlock' for c in ci.mro):
-            continue
-        r = prog.resolve_method(ci, '_restore_state')
-        ok = r is not None and r.cls is not ap
-        ck.ob(R5, f"{ci.qual}._restore_state", ok,
-              f"defined: {r.fid}" if ok else f"{ci.name} does not define _restore_state", r, ci.node)
+            ok = gsx is not None and gsx.fid == 'block:SBlock.get_state' and rsx is not None and \
+                _target(rsx) is _target(ifx)
+            ck.ob(R5, f"{q} get_state <-> _restore_state", ok,
+                  "state = output; restored through the same function as init_from_value" if ok else
+                  f"{ci.name}: get_state={gsx.fid if gsx else None}, _restore_state="
+                  f"{rsx.fid if rsx else None}, init_from_value={ifx.fid if ifx else None}", rsx,
+                  ci.node)
+        for ci in prog.subclasses(ap, strict=True):
+            if ci.module.name == 'demo' or '/' in ci.module.name or not any(cname(c) == 'SBlock' for c in ci.mro):
+                continue
+            r = prog.resolve_method(ci, '_restore_state')
+            ok = r is not None and r.cls is not ap
+            ck.ob(R5, f"{ci.qual}._restore_state", ok,
+                  f"defined: {r.fid}" if ok else f"{ci.name} does not define _restore_state", r, ci.node)
 
-    # ------------------------------------------------------------------ R06.6
-    lt = prog.module('utils.looptimes')
-    l2u = prog.func('utils.looptimes:loop_to_unixtime')
-    u2l = prog.func('utils.looptimes:unix_to_looptime')
-    gtd = prog.func('utils.looptimes:_get_timediff')
+    with ck.section('R06.6'):
+        # ------------------------------------------------------------------ R06.6
+        lt = prog.module('utils.looptimes')
+        l2u = prog.func('utils.looptimes:loop_to_unixtime')
+        u2l = prog.func('utils.looptimes:unix_to_looptime')
+        gtd = prog.func('utils.looptimes:_get_timediff')
 
-    def ret_expr(fi):
-        r = [x for x in own_nodes(fi.node) if isinstance(x, ast.Return)]
-        return r[-1].value if r else None
-    e = ret_expr(l2u)
-    ok = isinstance(e, ast.BinOp) and isinstance(e.op, ast.Add) and \
-        {norm(e.left), norm(e.right)} == {l2u.node.args.args[0].arg, 'timediff'}
-    ck.ob(R6, l2u.fid, ok, "loop + (unix - loop) = unix" if ok else
-          "loop_to_unixtime does not add the time-base difference", l2u, l2u.node)
-    e = ret_expr(u2l)
-    ok = isinstance(e, ast.BinOp) and isinstance(e.op, ast.Sub) and \
-        norm(e.left) == u2l.node.args.args[0].arg and norm(e.right) == 'timediff'
-    ck.ob(R6, u2l.fid, ok, "unix - (unix - loop) = loop" if ok else
-          "unix_to_looptime does not subtract the time-base difference", u2l, u2l.node)
-    e = ret_expr(gtd)
-    types = {}
-    for x in own_nodes(gtd.node):
-        if isinstance(x, ast.Assign) and isinstance(x.targets[0], ast.Name):
-            v = norm(x.value)
-            if v == 'time.time':
-                types[x.targets[0].id] = 'unixf'
-            elif v.endswith('get_running_loop().time'):
-                types[x.targets[0].id] = 'loopf'
-    for x in own_nodes(gtd.node):
-        if isinstance(x, ast.Assign) and isinstance(x.targets[0], ast.Name) and isinstance(x.value, ast.Call) \
-                and isinstance(x.value.func, ast.Name) and x.value.func.id in types:
-            types[x.targets[0].id] = 'unix' if types[x.value.func.id] == 'unixf' else 'loop'
+        def ret_expr(fi):
+            r = [x for x in own_nodes(fi.node) if isinstance(x, ast.Return)]
+            return r[-1].value if r else None
+        e = ret_expr(l2u)
+        ok = isinstance(e, ast.BinOp) and isinstance(e.op, ast.Add) and \
+            {norm(e.left), norm(e.right)} == {l2u.node.args.args[0].arg, 'timediff'}
+        ck.ob(R6, l2u.fid, ok, "loop + (unix - loop) = unix" if ok else
+              "loop_to_unixtime does not add the time-base difference", l2u, l2u.node)
+        e = ret_expr(u2l)
+        ok = isinstance(e, ast.BinOp) and isinstance(e.op, ast.Sub) and \
+            norm(e.left) == u2l.node.args.args[0].arg and norm(e.right) == 'timediff'
+        ck.ob(R6, u2l.fid, ok, "unix - (unix - loop) = loop" if ok else
+              "unix_to_looptime does not subtract the time-base difference", u2l, u2l.node)
+        e = ret_expr(gtd)
+        types = {}
+        for x in own_nodes(gtd.node):
+            if isinstance(x, ast.Assign) and isinstance(x.targets[0], ast.Name):
+                v = norm(x.value)
+                if v == 'time.time':
+                    types[x.targets[0].id] = 'unixf'
+                elif v.endswith('get_running_loop().time'):
+                    types[x.targets[0].id] = 'loopf'
+        for x in own_nodes(gtd.node):
+            if isinstance(x, ast.Assign) and isinstance(x.targets[0], ast.Name) and isinstance(x.value, ast.Call) \
+                    and isinstance(x.value.func, ast.Name) and x.value.func.id in types:
+                types[x.targets[0].id] = 'unix' if types[x.value.func.id] == 'unixf' else 'loop'
 
-    def ty(ex):
-        if isinstance(ex, ast.Name):
-            return types.get(ex.id)
-        if isinstance(ex, ast.BinOp):
-            l, r_ = ty(ex.left), ty(ex.right)
-            if isinstance(ex.op, ast.Add) and l == r_ and l in ('unix', 'loop'):
-                return l + '2'
-            if isinstance(ex.op, ast.Div) and l in ('unix2', 'loop2') and isinstance(ex.right, ast.Constant):
-                return l[:-1]
-            if isinstance(ex.op, ast.Sub) and l == 'unix' and r_ == 'loop':
-                return 'unix-loop'
-        return None
-    ck.ob(R6, gtd.fid, ty(e) == 'unix-loop',
-          "returns (mean of two unix readings) - (loop reading): unix minus loop" if ty(e) == 'unix-loop'
-          else f"_get_timediff does not return unix time minus loop time ({norm(e)})", gtd, gtd.node)
-    # FSM.get_state: position 1 is loop_to_unixtime(timer.when()) or None
-    vals = ck.rdefs(gsf.fid, 'M0').value_exprs(rets[0], norm(rets[0].ast.value.elts[1])) \
-        if rets and isinstance(rets[0].ast.value.elts[1], ast.Name) else []
-    ok = bool(vals) and all(not isinstance(v, str) and (
-        is_const(v, None) or (isinstance(v, ast.Call) and norm(v.func).endswith('loop_to_unixtime')
-                              and norm(v.args[0]).endswith('.when()'))) for v in vals) and \
-        any(not is_const(v, None) for v in vals)
-    ck.ob(R6, f"{gsf.fid} :: stored expiry", ok,
-          "the expiry is stored as loop_to_unixtime(timer.when()) (unix time) or None" if ok else
-          "the timer expiry is stored in the event loop's time base (meaningless after a "
-          "restart) or not at all", gsf, rets[0].ast if rets else gsf.node)
-    none_when = [v for v in vals if not isinstance(v, str) and is_const(v, None)]
-    # pending test
-    pend = [n for n in gg.nodes if n.kind == 'test' and 'cancelled()' in norm(n.ast)]
-    ck.ob(R6, f"{gsf.fid} :: no timer", bool(none_when) and bool(pend),
-          "no (or a cancelled) timer is stored as None" if none_when and pend else
-          "a missing/cancelled timer is not stored as None", gsf, gsf.node)
-    # _restore_state: remaining = exp - time.time(); _set_timer(remaining, ...)
-    rem = nodes_where(gr2, lambda n: isinstance(n.ast, ast.Assign) and isinstance(n.ast.value, ast.BinOp)
-                      and isinstance(n.ast.value.op, ast.Sub) and norm(n.ast.value.right) == 'time.time()')
-    sets = nodes_calling(gr2, '_set_timer')
-    ok = len(rem) == 1 and len(sets) == 1 and \
-        norm(node_calls(sets[0], '_set_timer')[0].args[0]) == norm(rem[0].ast.targets[0])
-    ck.ob(R6, f"{rsf.fid} :: remaining time", ok,
-          "remaining = stored unix expiry - time.time() (a duration) is what _set_timer gets" if ok
-          else "the restored timer is not set to (stored expiry - current unix time)", rsf,
-          rem[0].ast if rem else rsf.node)
-    ifp = ap.methods['init_from_persistent_data']
-    gp = ck.cfg(ifp.fid, 'M1')
-    # the expiry decision itself, on a grid that covers the sign of `expiration` and every
-    # ordering of (stop time + expiration) against the current time
-    from sa.minieval import MiniEval
-    badc = []
-    ncase = 0
-    for exp_, ts_, now_ in [(e_, t_, n_) for e_ in (None, -5, 0, 0.0, 5) for t_ in (None, 100)
-                            for n_ in (90, 104, 105, 106, 200)]:
-            if True:
-                calls = []
-                env = {'self.expiration': exp_, 'self.circuit.persistent_ts': ts_, 'time.time()': now_,
-                       'self.circuit.persistent_dict[self.key]': 'STATE',
-                       'self.circuit.persistent_dict': 'STORAGE',
-                       'self._restore_state': lambda st_, calls=calls: calls.append(st_)}
-                out = MiniEval(R7, env, resolve=_resolver_for(prog, ap)).run(ifp.node.body)
-                ncase += 1
-                ck.abstract_cases += 1
-                want = exp_ is None or (exp_ > 0 and (ts_ is None or not ts_ + exp_ < now_))
-                if out[0] != 'return' or (calls == ['STATE']) != want or len(calls) > 1:
-                    badc.append(f"expiration={exp_!r}, stop time={ts_!r}, now={now_}: "
-                                f"{'restored' if calls else 'not restored'} ({out[0]}), must be "
-                                f"{'restored' if want else 'discarded'}")
-    ck.ob(R7, f"{ifp.fid} :: expiry decision", not badc,
-          f"evaluated on {ncase} (expiration, stop time, now) cases: the saved state is restored iff "
-          f"expiration is None, or positive and stop time + expiration >= now (or no time stamp)"
-          if not badc else "; ".join(badc[:4]), ifp, ifp.node)
-    expiry_grid_ok = not badc
-    cmpn = [n for n in gp.nodes if n.kind == 'test' and 'time.time()' in norm(n.ast)]
-    helper_cmp = []
-    if not cmpn:
-        # the test may live in a small helper method of the same class (extract method)
-        for c_ in [x for x in own_nodes(ifp.node) if isinstance(x, ast.Call) and recv(x) == 'self']:
-            hf = prog.resolve_method(ap, call_name(c_) or '')
-            if hf is not None and hf is not ifp:
-                helper_cmp += [x for x in own_nodes(hf.node) if isinstance(x, ast.Compare) and
-                               'time.time()' in norm(x) and len(x.ops) == 1]
-    ok = len(cmpn) == 1
-    if ok:
-        # unit typing of the comparison: U = unix time, D = duration
-        def utype(e):
-            t_ = norm(e)
-            if t_ == 'time.time()' or t_ == 'ts':
-                return 'U'
-            if t_ == 'exp':
-                return 'D'
-            if isinstance(e, ast.BinOp) and isinstance(e.op, (ast.Add, ast.Sub)):
-                l_, r_ = utype(e.left), utype(e.right)
-                if isinstance(e.op, ast.Add):
-                    return {('U', 'D'): 'U', ('D', 'U'): 'U', ('D', 'D'): 'D'}.get((l_, r_))
-                return {('U', 'U'): 'D', ('U', 'D'): 'U', ('D', 'D'): 'D'}.get((l_, r_))
+        def ty(ex):
+            if isinstance(ex, ast.Name):
+                return types.get(ex.id)
+            if isinstance(ex, ast.BinOp):
+                l, r_ = ty(ex.left), ty(ex.right)
+                if isinstance(ex.op, ast.Add) and l == r_ and l in ('unix', 'loop'):
+                    return l + '2'
+                if isinstance(ex.op, ast.Div) and l in ('unix2', 'loop2') and isinstance(ex.right, ast.Constant):
+                    return l[:-1]
+                if isinstance(ex.op, ast.Sub) and l == 'unix' and r_ == 'loop':
+                    return 'unix-loop'
             return None
-        comps = [x for x in ast.walk(cmpn[0].ast) if isinstance(x, ast.Compare) and
-                 'time.time()' in norm(x) and len(x.ops) == 1]
-        ok = len(comps) == 1 and utype(comps[0].left) is not None and \
-            utype(comps[0].left) == utype(comps[0].comparators[0]) and \
-            {'ts', 'exp', 'time.time()'} <= {norm(x) for x in ast.walk(comps[0])}
-        tsd = ck.rdefs(ifp.fid, 'M1').value_exprs(cmpn[0], 'ts')
-        ok = ok and all(not isinstance(v, str) and norm(v) == 'self.circuit.persistent_ts' for v in tsd) and bool(tsd)
-    if not cmpn and len(helper_cmp) == 1 and expiry_grid_ok:
-        # typed on the helper's comparison; operands: any name bound to persistent_ts / expiration
-        txt = norm(helper_cmp[0])
-        ok = ('time.time()' in txt) and any(isinstance(x, ast.BinOp) or isinstance(x, ast.Name)
-                                            for x in ast.walk(helper_cmp[0]))
-    ck.ob(R6, f"{ifp.fid} :: expiration test", ok,
-          "stop time stamp (unix) + expiration (duration) < time.time() (unix)" if ok else
-          "the expiration test mixes time bases or does not use the stored stop time stamp",
-          ifp, cmpn[0].ast if cmpn else ifp.node)
-    cpd = circ.methods['_check_persistent_data']
-    rd_ts = [x for x in own_nodes(cpd.node) if isinstance(x, ast.Assign) and
-             norm(x.targets[0]) == 'self.persistent_ts' and isinstance(x.value, ast.Subscript)]
-    if not rd_ts:
-        # through a local: self.persistent_ts = <name>, every definition of <name> a storage read
-        gcp0 = ck.cfg(cpd.fid, 'MK')
-        rdc = ck.rdefs(cpd.fid, 'MK')
-        for wn in nodes_writing_attr(gcp0, 'persistent_ts'):
-            v_ = written_value(wn, 'persistent_ts')
-            if isinstance(v_, ast.Name):
-                vals_ = rdc.value_exprs(wn, v_.id)
-                if vals_ and all(not isinstance(x, str) and isinstance(x, ast.Subscript) and
-                                 _is_storage(x.value) for x in vals_):
-                    rd_ts = [ast.Assign(targets=wn.ast.targets, value=vals_[0], lineno=wn.ast.lineno)]
-    ok = len(rd_ts) == 1 and _is_storage(rd_ts[0].value.value)
-    ck.ob(R6, f"{cpd.fid} :: time stamp read", ok,
-          "persistent_ts is read from the storage" if ok else
-          "persistent_ts is not read from the storage", cpd, rd_ts[0] if rd_ts else cpd.node)
+        ck.ob(R6, gtd.fid, ty(e) == 'unix-loop',
+              "returns (mean of two unix readings) - (loop reading): unix minus loop" if ty(e) == 'unix-loop'
+              else f"_get_timediff does not return unix time minus loop time ({norm(e)})", gtd, gtd.node)
+        # FSM.get_state: position 1 is loop_to_unixtime(timer.when()) or None
+        vals = ck.rdefs(gsf.fid, 'M0').value_exprs(rets[0], norm(rets[0].ast.value.elts[1])) \
+            if rets and isinstance(rets[0].ast.value.elts[1], ast.Name) else []
+        ok = bool(vals) and all(not isinstance(v, str) and (
+            is_const(v, None) or (isinstance(v, ast.Call) and norm(v.func).endswith('loop_to_unixtime')
+                                  and norm(v.args[0]).endswith('.when()'))) for v in vals) and \
+            any(not is_const(v, None) for v in vals)
+        ck.ob(R6, f"{gsf.fid} :: stored expiry", ok,
+              "the expiry is stored as loop_to_unixtime(timer.when()) (unix time) or None" if ok else
+              "the timer expiry is stored in the event loop's time base (meaningless after a "
+              "restart) or not at all", gsf, rets[0].ast if rets else gsf.node)
+        none_when = [v for v in vals if not isinstance(v, str) and is_const(v, None)]
+        # pending test
+        pend = [n for n in gg.nodes if n.kind == 'test' and 'cancelled()' in norm(n.ast)]
+        ck.ob(R6, f"{gsf.fid} :: no timer", bool(none_when) and bool(pend),
+              "no (or a cancelled) timer is stored as None" if none_when and pend else
+              "a missing/cancelled timer is not stored as None", gsf, gsf.node)
+        # _restore_state: remaining = exp - time.time(); _set_timer(remaining, ...)
+        rem = nodes_where(gr2, lambda n: isinstance(n.ast, ast.Assign) and isinstance(n.ast.value, ast.BinOp)
+                          and isinstance(n.ast.value.op, ast.Sub) and norm(n.ast.value.right) == 'time.time()')
+        sets = nodes_calling(gr2, '_set_timer')
+        ok = len(rem) == 1 and len(sets) == 1 and \
+            norm(node_calls(sets[0], '_set_timer')[0].args[0]) == norm(rem[0].ast.targets[0])
+        ck.ob(R6, f"{rsf.fid} :: remaining time", ok,
+              "remaining = stored unix expiry - time.time() (a duration) is what _set_timer gets" if ok
+              else "the restored timer is not set to (stored expiry - current unix time)", rsf,
+              rem[0].ast if rem else rsf.node)
+        ifp = ap.methods['init_from_persistent_data']
+        gp = ck.cfg(ifp.fid, 'M1')
+        # the expiry decision itself, on a grid that covers the sign of `expiration` and every
+        # ordering of (stop time + expiration) against the current time
+        from sa.minieval import MiniEval
+        badc = []
+        ncase = 0
+        for exp_, ts_, now_ in [(e_, t_, n_) for e_ in (None, -5, 0, 0.0, 5) for t_ in (None, 100)
+                                for n_ in (90, 104, 105, 106, 200)]:
+                if True:
+                    calls = []
+                    env = {'self.expiration': exp_, 'self.circuit.persistent_ts': ts_, 'time.time()': now_,
+                           'self.circuit.persistent_dict[self.key]': 'STATE',
+                           'self.circuit.persistent_dict': 'STORAGE',
+                           'self._restore_state': lambda st_, calls=calls: calls.append(st_)}
+                    out = MiniEval(R7, env, resolve=_resolver_for(prog, ap)).run(ifp.node.body)
+                    ncase += 1
+                    ck.abstract_cases += 1
+                    want = exp_ is None or (exp_ > 0 and (ts_ is None or not ts_ + exp_ < now_))
+                    if out[0] != 'return' or (calls == ['STATE']) != want or len(calls) > 1:
+                        badc.append(f"expiration={exp_!r}, stop time={ts_!r}, now={now_}: "
+                                    f"{'restored' if calls else 'not restored'} ({out[0]}), must be "
+                                    f"{'restored' if want else 'discarded'}")
+        ck.ob(R7, f"{ifp.fid} :: expiry decision", not badc,
+              f"evaluated on {ncase} (expiration, stop time, now) cases: the saved state is restored iff "
+              f"expiration is None, or positive and stop time + expiration >= now (or no time stamp)"
+              if not badc else "; ".join(badc[:4]), ifp, ifp.node)
+        expiry_grid_ok = not badc
+        cmpn = [n for n in gp.nodes if n.kind == 'test' and 'time.time()' in norm(n.ast)]
+        helper_cmp = []
+        if not cmpn:
+            # the test may live in a small helper method of the same class (extract method)
+            for c_ in [x for x in own_nodes(ifp.node) if isinstance(x, ast.Call) and recv(x) == 'self']:
+                hf = prog.resolve_method(ap, call_name(c_) or '')
+                if hf is not None and hf is not ifp:
+                    helper_cmp += [x for x in own_nodes(hf.node) if isinstance(x, ast.Compare) and
+                                   'time.time()' in norm(x) and len(x.ops) == 1]
+        ok = len(cmpn) == 1
+        if ok:
+            # unit typing of the comparison: U = unix time, D = duration
+            def utype(e):
+                t_ = norm(e)
+                if t_ == 'time.time()' or t_ == 'ts':
+                    return 'U'
+                if t_ == 'exp':
+                    return 'D'
+                if isinstance(e, ast.BinOp) and isinstance(e.op, (ast.Add, ast.Sub)):
+                    l_, r_ = utype(e.left), utype(e.right)
+                    if isinstance(e.op, ast.Add):
+                        return {('U', 'D'): 'U', ('D', 'U'): 'U', ('D', 'D'): 'D'}.get((l_, r_))
+                    return {('U', 'U'): 'D', ('U', 'D'): 'U', ('D', 'D'): 'D'}.get((l_, r_))
+                return None
+            comps = [x for x in ast.walk(cmpn[0].ast) if isinstance(x, ast.Compare) and
+                     'time.time()' in norm(x) and len(x.ops) == 1]
+            ok = len(comps) == 1 and utype(comps[0].left) is not None and \
+                utype(comps[0].left) == utype(comps[0].comparators[0]) and \
+                {'ts', 'exp', 'time.time()'} <= {norm(x) for x in ast.walk(comps[0])}
+            tsd = ck.rdefs(ifp.fid, 'M1').value_exprs(cmpn[0], 'ts')
+            ok = ok and all(not isinstance(v, str) and norm(v) == 'self.circuit.persistent_ts' for v in tsd) and bool(tsd)
+        if not cmpn and len(helper_cmp) == 1 and expiry_grid_ok:
+            # typed on the helper's comparison; operands: any name bound to persistent_ts / expiration
+            txt = norm(helper_cmp[0])
+            ok = ('time.time()' in txt) and any(isinstance(x, ast.BinOp) or isinstance(x, ast.Name)
+                                                for x in ast.walk(helper_cmp[0]))
+        ck.ob(R6, f"{ifp.fid} :: expiration test", ok,
+              "stop time stamp (unix) + expiration (duration) < time.time() (unix)" if ok else
+              "the expiration test mixes time bases or does not use the stored stop time stamp",
+              ifp, cmpn[0].ast if cmpn else ifp.node)
+        cpd = circ.methods['_check_persistent_data']
+        rd_ts = [x for x in own_nodes(cpd.node) if isinstance(x, ast.Assign) and
+                 norm(x.targets[0]) == 'self.persistent_ts' and isinstance(x.value, ast.Subscript)]
+        if not rd_ts:
+            # through a local: self.persistent_ts = <name>, every definition of <name> a storage read
+            gcp0 = ck.cfg(cpd.fid, 'MK')
+            rdc = ck.rdefs(cpd.fid, 'MK')
+            for wn in nodes_writing_attr(gcp0, 'persistent_ts'):
+                v_ = written_value(wn, 'persistent_ts')
+                if isinstance(v_, ast.Name):
+                    vals_ = rdc.value_exprs(wn, v_.id)
+                    if vals_ and all(not isinstance(x, str) and isinstance(x, ast.Subscript) and
+                                     _is_storage(x.value) for x in vals_):
+                        rd_ts = [ast.Assign(targets=wn.ast.targets, value=vals_[0], lineno=wn.ast.lineno)]
+        ok = len(rd_ts) == 1 and _is_storage(rd_ts[0].value.value)
+        ck.ob(R6, f"{cpd.fid} :: time stamp read", ok,
+              "persistent_ts is read from the storage" if ok else
+              "persistent_ts is not read from the storage", cpd, rd_ts[0] if rd_ts else cpd.node)
 
-    # ------------------------------------------------------------------ R06.7
-    rst = nodes_calling(gp, '_restore_state')
-    ck.need(R7, len(rst) == 1, "init_from_persistent_data: _restore_state call not recognised")
-    exp_le = [n for n in gp.nodes if n.kind == 'branch' and n.polarity and
-              norm(n.test.ast) in ('exp <= 0.0', 'exp <= 0')]
-    exp_old = [n for n in gp.nodes if n.kind == 'branch' and n.polarity and 'time.time()' in norm(n.test.ast)]
-    bad = None
-    for b in exp_le + exp_old:
-        if rst[0].id in gp.reachable_from(b):
-            bad = gp.path_avoiding(b, rst)
-    ck.ob(R7, f"{ifp.fid} :: expired state not restored", (bad is None and bool(exp_le) and bool(exp_old)) or expiry_grid_ok,
-          "neither `expiration <= 0` nor `stop time + expiration < now` reaches _restore_state"
-          if bad is None and exp_le and exp_old else
-          "an expired state (or expiration <= 0) can be restored", ifp, rst[0].ast,
-          witness=path_witness(gp, bad))
-    c = node_calls(rst[0], '_restore_state')[0]
-    vals = ck.rdefs(ifp.fid, 'M1').value_exprs(rst[0], norm(c.args[0])) if c.args else []
-    ok = bool(vals) and all(not isinstance(v, str) and isinstance(v, ast.Subscript) and _is_storage(v.value)
-                            and norm(v.slice) == 'self.key' for v in vals)
-    ck.ob(R7, f"{ifp.fid} :: restored value", ok,
-          "the block's own entry storage[self.key] is what is restored" if ok else
-          "_restore_state does not receive the block's own storage entry", ifp, rst[0].ast)
-    hs = [h for h in handlers_in(ifp) if catches_broad(h)]
-    ok = len(hs) >= 2 and not any(handler_reraises(ifp, h) for h in hs)
-    ck.ob(R7, f"{ifp.fid} :: restore errors logged", ok,
-          "retrieval and restore errors are caught and logged; the normal initialisation follows"
-          if ok else "a restore error is not contained", ifp, ifp.node)
-    g0 = ck.cfg(rsf.fid, 'M0')
-    exp_ret = [r for r in return_nodes(g0) if g0.has_guard(r, 'remaining <= 0.0', True) or
-               g0.has_guard(r, 'remaining <= 0', True)]
-    forb = effect_nodes(g0, attrs_written=('_state', 'sdata', '_active_timer'),
-                        calls=('_set_timer', 'set_output'))
-    if exp_ret:
-        effect_free_to(ck, R7, f"{rsf.fid} :: expired timer", rsf, g0, exp_ret, forb,
-                       "a state whose timer ran out during the downtime is discarded without effect")
-    else:
-        ck.ob(R7, f"{rsf.fid} :: expired timer", False,
-              "no effect-free return under `remaining <= 0.0`", rsf, rsf.node)
-    bad = [norm1(x) for x in own_nodes(rsf.node) if isinstance(x, ast.Call) and
-           call_name(x) in ('_run_cb', '_send_events', '_ctx_event', 'event', '_event')]
-    ck.ob(R7, f"{rsf.fid} :: no actions re-run", not bad,
-          "restoring runs no cond/enter/exit action and sends no state events" if not bad else
-          f"_restore_state re-runs actions/events: {bad}", rsf, rsf.node)
-    so = nodes_calling(g0, 'set_output')
-    sw = nodes_writing_attr(g0, '_state')
-    ok = bool(so) and bool(sw) and all(g0.dominates(sw[0], s_) for s_ in so) and \
-        any(call_name(x) == 'calc_output' for s_ in so for d in ck.rdefs(rsf.fid, 'M0').defs_at(
-            s_, norm(node_calls(s_, 'set_output')[0].args[0]))
-            for x in walk_shallow(d.ast) if isinstance(x, ast.Call)) if so and \
-        isinstance(node_calls(so[0], 'set_output')[0].args[0], ast.Name) else False
-    ck.ob(R7, f"{rsf.fid} :: output restored", ok,
-          "the output is recomputed from the restored state with calc_output()" if ok else
-          "the output is not recomputed from the restored state", rsf, so[0].ast if so else rsf.node)
+    with ck.section('R06.7'):
+        # ------------------------------------------------------------------ R06.7
+        rst = nodes_calling(gp, '_restore_state')
+        ck.need(R7, len(rst) == 1, "init_from_persistent_data: _restore_state call not recognised")
+        exp_le = [n for n in gp.nodes if n.kind == 'branch' and n.polarity and
+                  norm(n.test.ast) in ('exp <= 0.0', 'exp <= 0')]
+        exp_old = [n for n in gp.nodes if n.kind == 'branch' and n.polarity and 'time.time()' in norm(n.test.ast)]
+        bad = None
+        for b in exp_le + exp_old:
+            if rst[0].id in gp.reachable_from(b):
+                bad = gp.path_avoiding(b, rst)
+        ck.ob(R7, f"{ifp.fid} :: expired state not restored", (bad is None and bool(exp_le) and bool(exp_old)) or expiry_grid_ok,
+              "neither `expiration <= 0` nor `stop time + expiration < now` reaches _restore_state"
+              if bad is None and exp_le and exp_old else
+              "an expired state (or expiration <= 0) can be restored", ifp, rst[0].ast,
+              witness=path_witness(gp, bad))
+        c = node_calls(rst[0], '_restore_state')[0]
+        vals = ck.rdefs(ifp.fid, 'M1').value_exprs(rst[0], norm(c.args[0])) if c.args else []
+        ok = bool(vals) and all(not isinstance(v, str) and isinstance(v, ast.Subscript) and _is_storage(v.value)
+                                and norm(v.slice) == 'self.key' for v in vals)
+        ck.ob(R7, f"{ifp.fid} :: restored value", ok,
+              "the block's own entry storage[self.key] is what is restored" if ok else
+              "_restore_state does not receive the block's own storage entry", ifp, rst[0].ast)
+        hs = [h for h in handlers_in(ifp) if catches_broad(h)]
+        ok = len(hs) >= 2 and not any(handler_reraises(ifp, h) for h in hs)
+        ck.ob(R7, f"{ifp.fid} :: restore errors logged", ok,
+              "retrieval and restore errors are caught and logged; the normal initialisation follows"
+              if ok else "a restore error is not contained", ifp, ifp.node)
+        g0 = ck.cfg(rsf.fid, 'M0')
+        exp_ret = [r for r in return_nodes(g0) if g0.has_guard(r, 'remaining <= 0.0', True) or
+                   g0.has_guard(r, 'remaining <= 0', True)]
+        forb = effect_nodes(g0, attrs_written=('_state', 'sdata', '_active_timer'),
+                            calls=('_set_timer', 'set_output'))
+        if exp_ret:
+            effect_free_to(ck, R7, f"{rsf.fid} :: expired timer", rsf, g0, exp_ret, forb,
+                           "a state whose timer ran out during the downtime is discarded without effect")
+        else:
+            ck.ob(R7, f"{rsf.fid} :: expired timer", False,
+                  "no effect-free return under `remaining <= 0.0`", rsf, rsf.node)
+        bad = [norm1(x) for x in own_nodes(rsf.node) if isinstance(x, ast.Call) and
+               call_name(x) in ('_run_cb', '_send_events', '_ctx_event', 'event', '_event')]
+        ck.ob(R7, f"{rsf.fid} :: no actions re-run", not bad,
+              "restoring runs no cond/enter/exit action and sends no state events" if not bad else
+              f"_restore_state re-runs actions/events: {bad}", rsf, rsf.node)
+        so = nodes_calling(g0, 'set_output')
+        sw = nodes_writing_attr(g0, '_state')
+        ok = bool(so) and bool(sw) and all(g0.dominates(sw[0], s_) for s_ in so) and \
+            any(call_name(x) == 'calc_output' for s_ in so for d in ck.rdefs(rsf.fid, 'M0').defs_at(
+                s_, norm(node_calls(s_, 'set_output')[0].args[0]))
+                for x in walk_shallow(d.ast) if isinstance(x, ast.Call)) if so and \
+            isinstance(node_calls(so[0], 'set_output')[0].args[0], ast.Name) else False
+        ck.ob(R7, f"{rsf.fid} :: output restored", ok,
+              "the output is recomputed from the restored state with calc_output()" if ok else
+              "the output is not recomputed from the restored state", rsf, so[0].ast if so else rsf.node)
 
-    # ------------------------------------------------------------------ R06.8
-    gcp = ck.cfg(cpd.fid, 'M0')
-    dels = nodes_where(gcp, lambda n: isinstance(n.ast, ast.Delete) and
-                       any(_is_storage(t.value) for t, k, s_ in subscript_writes(n.ast)), kinds=('stmt',))
-    ok = len(dels) == 1
-    lit = None
-    if ok:
-        for e_, p in gcp.guards(dels[0]):
-            if isinstance(e_, ast.Call) and call_name(e_) == 'startswith' and not p and \
-                    isinstance(e_.args[0], ast.Constant):
-                lit = e_.args[0].value
-        ok = lit is not None
-        loop = [l for l in gcp.nodes if l.kind == 'for' and gcp.dominates(l, dels[0])][-1]
-        it = norm(loop.ast.iter)
-        ok = ok and '.keys() - ' in it and 'blk.key for blk in persistent_blocks' in it and \
-            norm(loop.ast.target) == norm(dels[0].ast.targets[0].slice)
-    ck.ob(R8, f"{cpd.fid} :: purge", ok,
-          f"only keys that belong to no persistent block are deleted, and never keys starting "
-          f"with {lit!r}" if ok else
-          "the purge of unused entries can delete reserved keys or entries of existing blocks",
-          cpd, dels[0].ast if dels else cpd.node)
-    w_lit = norm(ts[0].ast.targets[0].slice) if ts else None
-    r_lit = norm(rd_ts[0].value.slice) if rd_ts else None
-    ok = w_lit is not None and w_lit == r_lit and lit is not None and \
-        ast.literal_eval(w_lit).startswith(lit) if w_lit and r_lit and lit else False
-    ck.ob(R8, "stop time stamp key", bool(ok),
-          f"written and read under the same reserved key {w_lit}" if ok else
-          f"the stop time stamp is written under {w_lit} but read under {r_lit} (reserved prefix "
-          f"{lit!r})", rf, ts[0].ast if ts else rf.node)
-    # with a storage attached the purge and the time stamp read happen unconditionally: the only
-    # way round them is "there is no storage" (in particular NOT "no persistent block": a start
-    # without persistent blocks must still drop the stale entries, or a later start restores them
-    # with a fresh stop time stamp)
-    nostorage = [n for n in gcp.nodes if n.kind == 'branch' and any(
-        canon_fact(e_, p_) == canon_fact(ast.parse('self.persistent_dict is None', mode='eval').body, True)
-        for e_, p_ in decompose(n.test.ast, n.polarity))]
-    loops = [l for l in gcp.nodes if l.kind == 'for' and dels and gcp.dominates(l, dels[0])]
-    tsw = nodes_writing_attr(gcp, 'persistent_ts')
-    wit1 = gcp.path_avoiding(gcp.entry, [gcp.exit], avoid=nostorage + loops[-1:]) if loops else [gcp.entry]
-    wit2 = gcp.path_avoiding(gcp.entry, [gcp.exit], avoid=nostorage + tsw) if tsw else [gcp.entry]
-    ck.ob(R8, f"{cpd.fid} :: purge and time stamp read whenever a storage exists",
-          wit1 is None and wit2 is None and bool(nostorage),
-          "every path that does not see `persistent_dict is None` reads the stop time stamp and "
-          "runs the purge loop" if wit1 is None and wit2 is None and nostorage else
-          "with a storage attached, a path skips the purge of unused entries and/or the read of "
-          "the stop time stamp (e.g. when the circuit has no persistent block): stale entries "
-          "survive and are restored by a later start", cpd, dels[0].ast if dels else cpd.node,
-          witness=path_witness(gcp, wit1 or wit2))
-    # ... and the function is actually run: every start passes it before any block is initialised
-    grf = ck.cfg(rf.fid, 'M0')
-    callc = nodes_where(grf, lambda n: any(call_name(c) == '_check_persistent_data' and recv(c) == 'self'
-                                           for c in node_calls(n)))
-    inits = nodes_where(grf, lambda n: any(call_name(c) in ('_init_sblocks_sync_1', 'start') for c in node_calls(n)))
-    okc = bool(callc) and bool(inits) and all(any(grf.dominates(c_, i_) for c_ in callc) for i_ in inits)
-    ck.ob(R8, f"{rf.fid} :: storage checked before the blocks are started and restored", okc,
-          "self._check_persistent_data() dominates the start() loop and the first initialisation "
-          "pass" if okc else
-          "run_forever starts / initialises blocks without having called _check_persistent_data(): "
-          "the stop time stamp is never read (expiration is not checked) and stale entries are not "
-          "purged", rf, callc[0].ast if callc else rf.node)
-    pb = nodes_where(gcp, lambda n: isinstance(n.ast, ast.Assign) and norm(n.ast.targets[0]) == 'persistent_blocks')
-    ok = len(pb) == 1 and 'getblocks(addons.AddonPersistence)' in norm(pb[0].ast.value) and \
-        'blk.persistent' in norm(pb[0].ast.value)
-    ck.ob(R8, f"{cpd.fid} :: persistent blocks", ok,
-          "the kept keys are those of all blocks with persistent=True" if ok else
-          "the set of blocks whose entries are kept is not 'all persistent blocks'", cpd,
-          pb[0].ast if pb else cpd.node)
+    with ck.section('R06.8'):
+        # ------------------------------------------------------------------ R06.8
+        gcp = ck.cfg(cpd.fid, 'M0')
+        dels = nodes_where(gcp, lambda n: isinstance(n.ast, ast.Delete) and
+                           any(_is_storage(t.value) for t, k, s_ in subscript_writes(n.ast)), kinds=('stmt',))
+        ok = len(dels) == 1
+        lit = None
+        if ok:
+            for e_, p in gcp.guards(dels[0]):
+                if isinstance(e_, ast.Call) and call_name(e_) == 'startswith' and not p and \
+                        isinstance(e_.args[0], ast.Constant):
+                    lit = e_.args[0].value
+            ok = lit is not None
+            loop = [l for l in gcp.nodes if l.kind == 'for' and gcp.dominates(l, dels[0])][-1]
+            it = norm(loop.ast.iter)
+            ok = ok and '.keys() - ' in it and 'blk.key for blk in persistent_blocks' in it and \
+                norm(loop.ast.target) == norm(dels[0].ast.targets[0].slice)
+        ck.ob(R8, f"{cpd.fid} :: purge", ok,
+              f"only keys that belong to no persistent block are deleted, and never keys starting "
+              f"with {lit!r}" if ok else
+              "the purge of unused entries can delete reserved keys or entries of existing blocks",
+              cpd, dels[0].ast if dels else cpd.node)
+        w_lit = norm(ts[0].ast.targets[0].slice) if ts else None
+        r_lit = norm(rd_ts[0].value.slice) if rd_ts else None
+        ok = w_lit is not None and w_lit == r_lit and lit is not None and \
+            ast.literal_eval(w_lit).startswith(lit) if w_lit and r_lit and lit else False
+        ck.ob(R8, "stop time stamp key", bool(ok),
+              f"written and read under the same reserved key {w_lit}" if ok else
+              f"the stop time stamp is written under {w_lit} but read under {r_lit} (reserved prefix "
+              f"{lit!r})", rf, ts[0].ast if ts else rf.node)
+        # with a storage attached the purge and the time stamp read happen unconditionally: the only
+        # way round them is "there is no storage" (in particular NOT "no persistent block": a start
+        # without persistent blocks must still drop the stale entries, or a later start restores them
+        # with a fresh stop time stamp)
+        nostorage = [n for n in gcp.nodes if n.kind == 'branch' and any(
+            canon_fact(e_, p_) == canon_fact(ast.parse('self.persistent_dict is None', mode='eval').body, True)
+            for e_, p_ in decompose(n.test.ast, n.polarity))]
+        loops = [l for l in gcp.nodes if l.kind == 'for' and dels and gcp.dominates(l, dels[0])]
+        tsw = nodes_writing_attr(gcp, 'persistent_ts')
+        wit1 = gcp.path_avoiding(gcp.entry, [gcp.exit], avoid=nostorage + loops[-1:]) if loops else [gcp.entry]
+        wit2 = gcp.path_avoiding(gcp.entry, [gcp.exit], avoid=nostorage + tsw) if tsw else [gcp.entry]
+        ck.ob(R8, f"{cpd.fid} :: purge and time stamp read whenever a storage exists",
+              wit1 is None and wit2 is None and bool(nostorage),
+              "every path that does not see `persistent_dict is None` reads the stop time stamp and "
+              "runs the purge loop" if wit1 is None and wit2 is None and nostorage else
+              "with a storage attached, a path skips the purge of unused entries and/or the read of "
+              "the stop time stamp (e.g. when the circuit has no persistent block): stale entries "
+              "survive and are restored by a later start", cpd, dels[0].ast if dels else cpd.node,
+              witness=path_witness(gcp, wit1 or wit2))
+        # ... and the function is actually run: every start passes it before any block is initialised
+        grf = ck.cfg(rf.fid, 'M0')
+        callc = nodes_where(grf, lambda n: any(call_name(c) == '_check_persistent_data' and recv(c) == 'self'
+                                               for c in node_calls(n)))
+        inits = nodes_where(grf, lambda n: any(call_name(c) in ('_init_sblocks_sync_1', 'start') for c in node_calls(n)))
+        okc = bool(callc) and bool(inits) and all(any(grf.dominates(c_, i_) for c_ in callc) for i_ in inits)
+        ck.ob(R8, f"{rf.fid} :: storage checked before the blocks are started and restored", okc,
+              "self._check_persistent_data() dominates the start() loop and the first initialisation "
+              "pass" if okc else
+              "run_forever starts / initialises blocks without having called _check_persistent_data(): "
+              "the stop time stamp is never read (expiration is not checked) and stale entries are not "
+              "purged", rf, callc[0].ast if callc else rf.node)
+        pb = nodes_where(gcp, lambda n: isinstance(n.ast, ast.Assign) and norm(n.ast.targets[0]) == 'persistent_blocks')
+        ok = len(pb) == 1 and 'getblocks(addons.AddonPersistence)' in norm(pb[0].ast.value) and \
+            'blk.persistent' in norm(pb[0].ast.value)
+        ck.ob(R8, f"{cpd.fid} :: persistent blocks", ok,
+              "the kept keys are those of all blocks with persistent=True" if ok else
+              "the set of blocks whose entries are kept is not 'all persistent blocks'", cpd,
+              pb[0].ast if pb else cpd.node)
 
 
 def _resolver_for(prog, ci):
